@@ -41,7 +41,7 @@ func (s *spec) budget(tier string) time.Duration {
 	if s.QuickBudget > 0 {
 		return s.QuickBudget
 	}
-	return 150 * time.Second
+	return 300 * time.Second // a deadline for loaded machines, not a size: the quick tiers take 3-170 s on an idle 16-core machine
 }
 
 func (s *spec) raceBudget(tier string) time.Duration {
